@@ -58,7 +58,8 @@ Garbage  == {"request.lenbig", "piece.big", "ext.hs.mbig", "ext.hs.mneg", "ext.h
              "ext.hs.empty", "ext.none", "ext.unknown", "ext.meta.reqneg", "ext.meta.garbage", "ext.pex.garbage"}
 Plain    == {"choke", "unchoke", "interested", "notinterested", "havenone", "port"}
 HaveK    == {"have.in0", "have.last", "have.oob", "have.max"}
-BitK     == {"bitfield.ok", "bitfield.full", "bitfield.spare", "bitfield.empty", "bitfield.long", "bitfield.atmax"}
+BitK     == {"bitfield.ok", "bitfield.full", "bitfield.spare", "bitfield.empty", "bitfield.short", "bitfield.long",
+             "bitfield.atmax"}
 FastK    == {"allowedfast.in0", "allowedfast.oob", "allowedfast.max"}
 ReqK     == {"request.ok", "request.len0", "request.tail", "request.ovf", "request.oob", "request.max",
              "request.lastoob"}
@@ -128,6 +129,7 @@ Exp(c) ==
       [] c = "allowedfast.max" -> << M("allowedfast", U32, 0, 0, 0) >>
       [] c \in {"bitfield.ok", "bitfield.full", "bitfield.spare"} -> << M("bitfield", 0, 0, 0, BfLen) >>
       [] c = "bitfield.empty" -> << M("bitfield", 0, 0, 0, 0) >>
+      [] c = "bitfield.short" -> << M("bitfield", 0, 0, 0, BfLen - 1) >>
       [] c = "bitfield.long" -> << M("bitfield", 0, 0, 0, BfLen + 1) >>
       [] c = "bitfield.atmax" -> << M("bitfield", 0, 0, 0, cfg.maxmsg) >>
       [] c = "request.ok" -> << M("request", 0, 0, Block, 0) >>
@@ -162,14 +164,14 @@ Match(e, g) == /\ e.kind = g.kind
 
 \* well-formed, in range and legal in state t: the property demands that such a message is HANDLED
 Benign(t, c) ==
-    \/ c \in Skip \cup Plain \cup {"haveall", "have.in0", "have.last", "bitfield.ok", "bitfield.full",
+    \/ c \in {"keepalive"} \cup Plain \cup {"haveall", "have.in0", "have.last", "bitfield.ok", "bitfield.full",
                                   "bitfield.empty", "allowedfast.in0", "ext.hs.ok", "ext.hs.nometa",
                                   "ext.meta.req0", "ext.pex.ok"}
     \/ (Live(t) /\ c \in {"request.ok", "cancel.ok"})
 
 \* result set of the handler for a DELIVERED message when pieces and bitfield exist (torrent_messagehandler.go)
 LiveRes(c) ==
-    CASE c \in {"have.oob", "have.max", "bitfield.long", "bitfield.atmax", "allowedfast.oob", "allowedfast.max",
+    CASE c \in {"have.oob", "have.max", "bitfield.short", "bitfield.long", "bitfield.atmax", "allowedfast.oob", "allowedfast.max",
                 "request.len0", "request.tail", "request.ovf", "request.oob", "request.max", "request.lastoob",
                 "reject.oob", "piece.oob", "piece.max"} -> {"dropped"}
          \* depend on whether a piece download from this peer is running / on the hash check afterwards
